@@ -61,7 +61,7 @@ int Logger::operator()()
 {
    unsigned received(0);
 
-   while (!_stopping)
+   for (;;)	// ends at the empty element queued by stop(), so that pending msgs are written first
    {
 		LogElement *msg_ptr(0);
 
